@@ -4,10 +4,15 @@ ms = json.load(open('/root/.vp/MANIFEST.schema.json'))
 es = json.load(open('/root/.vp/EVIDENCE.schema.json'))
 m = json.load(open('/verif/MANIFEST.json'))
 jsonschema.validate(m, ms)
-print("MANIFEST ok:", len(m.get("properties", m.get("claimed", []))), "entries")
+print("MANIFEST ok:", len(m.get("checks", [])), "checks")
 for f in sorted(glob.glob('/verif/evidence/*.json')):
     try:
-        jsonschema.validate(json.load(open(f)), es)
-        print("ok", f.split('/')[-1])
+        e_ = json.load(open(f))
+        jsonschema.validate(e_, es)
+        c_ = e_.get("coverage", {})
+        if c_.get("obligations") != c_.get("discharged") or not c_.get("obligations"):
+            print("INVALID", f, "coverage.discharged (%s) != obligations (%s)" % (c_.get("discharged"), c_.get("obligations")))
+        else:
+            print("ok", f.split('/')[-1])
     except jsonschema.ValidationError as e:
         print("INVALID", f, e.message[:200])
